@@ -67,10 +67,12 @@ class UnitRun:
         self.name, self.vcfile, self.defines, self.variant, self.canary = name, vcfile, defines or {}, variant, canary
         self.label = name + (('_' + variant) if variant else '') + ('_canary' if canary else '')
 
-    def build(self):
+    def build(self, stub_fns=None):
         defines = dict(self.defines)
         if self.canary:
             defines['canary'] = True
+        if stub_fns:
+            defines['stub_fns'] = dict(stub_fns)
         try:
             self.vc = extract.Vc(os.path.join(ROOT, 'contracts', self.vcfile), defines)
             var = '_'.join(x for x in [self.variant, 'canary' if self.canary else None] if x) or None
@@ -144,6 +146,12 @@ class UnitRun:
                 infra.append('diagnostic outside the extracted functions (ghost fn %s): %s' % (detail.get('ghost_fn'), d['message']))
                 continue
             fails.append({'obligation': oid, 'full': oid + (('|' + detail['sub']) if detail.get('sub') else ''), 'fn': fn, 'detail': detail})
+        # functions whose body was outside the extractor grammar: emitted as stubs, their obligations are not generated (counted as unproved, never as refuted-with-trust)
+        for st in self.meta.get('stubbed', []):
+            for o in self.table:
+                if o['fn'] == st['fn'] and o['kind'] != 'requires':
+                    fails.append({'obligation': o['id'], 'full': o['id'], 'fn': st['fn'], 'not_generated': True,
+                                  'detail': {'message': 'obligation not generated: the body of %s is outside the extractor grammar (%s)' % (st['fn'], st['reason']), 'where': [], 'fn': st['fn']}})
         # functions reported unsuccessful without any diagnostic mapped to them
         for name, f in res['functions'].items():
             if not f['success'] and not any(x['fn'] and (x['fn'] == name or x['fn'].endswith(name)) for x in fails):
@@ -495,6 +503,24 @@ def decide_verus_leg(pid, leg, tier, seed, log):
             log('warning: ' + w)
     thorough = (tier == 'thorough')
     res = u.verify(seed=0, funcs=leg.get('only_fns'), use_cache=not (thorough or NO_CACHE))
+    # a front-end error that lies inside ONE contracted function (a hint or a contract names a local that was renamed, a construct the verifier does not accept) makes that
+    # function a stub - contract kept, obligations not generated - and the rest of the unit is verified again; at most 4 such functions, otherwise the unit is undecided
+    stubs = {}
+    while res.get('frontend_error') and len(stubs) < 4:
+        located = []
+        fe_diags = [d for d in res['diagnostics'] if d['kind'] == 'frontend'] or res['diagnostics']
+        for d in fe_diags:
+            for sp in [x for x in d['spans'] if x['primary']] or d['spans']:
+                fn = ob.fn_at(u.meta, sp['gen_line'])
+                if fn and fn not in stubs and u.vc.fns.get(fn) is not None:
+                    located.append((fn, d['message']))
+        if not located:
+            break
+        for fn, msg in located:
+            stubs.setdefault(fn, 'verifier front end: ' + msg[:160])
+        log('note: front-end error inside %s: the function is emitted as a stub (its obligations are not generated) and the unit is verified again' % ', '.join(sorted({f for f, _ in located})))
+        u = UnitRun(leg['unit'], leg['vcfile'], leg['defines'], leg['variant']).build(stub_fns=stubs)
+        res = u.verify(seed=0, funcs=leg.get('only_fns'), use_cache=not (thorough or NO_CACHE))
     if res.get('frontend_error'):
         raise Undecided('verus front end on unit %s: %s' % (u.label, res['frontend_error']))
     fails, infra = u.failures(res)
@@ -533,6 +559,27 @@ def decide_verus_leg(pid, leg, tier, seed, log):
     # refuted obligations of this unit that carry the tags of OTHER properties only: this property's proof is modular over the same contracts, so it is no
     # longer established either (main() looks for a failing input of THIS property before saying anything)
     other_refuted = [f for f in fails if not serves(f) and (not only or f['fn'] in only)]
+    # ... but only where this property's proof can depend on them: the functions carrying its clauses and everything they (transitively) call - a modular proof uses the
+    # contracts of callees and nothing else - plus every function that can change state (`&mut`): the invariant every clause assumes must be re-established by all of them.
+    # A failed proof of a read-only function outside that cone (a getter this property never calls) says nothing about this property.
+    fmeta = {f['name']: f for f in u.meta['functions']}
+    simple = {}
+    for n in fmeta:
+        simple.setdefault(n.split('::')[-1], set()).add(n)
+    cone = {o['fn'] for o in mine} | {o['fn'] for o in pre}
+    work = list(cone)
+    while work:
+        fn = work.pop()
+        for tok in (fmeta.get(fn, {}).get('skeleton_text') or '').split():
+            if tok.startswith('call:'):
+                for callee in simple.get(tok[5:], ()):
+                    if callee not in cone:
+                        cone.add(callee)
+                        work.append(callee)
+    outside = [f for f in other_refuted if f['fn'] in fmeta and f['fn'] not in cone and fmeta[f['fn']].get('readonly')]
+    if outside:
+        log('note: unproved obligations in read-only functions this property does not depend on (outside its call cone) are ignored for %s: %s' % (pid, ', '.join(sorted({f['fn'] for f in outside}))))
+        other_refuted = [f for f in other_refuted if f not in outside]
     # functions of this property that Verus reports as failed
     confirm = {}
     if refuted:
@@ -554,7 +601,7 @@ def decide_verus_leg(pid, leg, tier, seed, log):
     # A restructured function (extracted helper, early return, reordered or added statements) whose proof fails is undecided - the proof may simply no longer fit.
     base_sk = load_skeletons().get(leg['unit'], {})
     cur_sk = {f['name']: f.get('skeleton', 'generated') for f in u.meta['functions']}
-    restructured = sorted({f['fn'] for f in refuted + other_refuted if f['fn'] and cur_sk.get(f['fn']) != base_sk.get(f['fn'])})
+    restructured = sorted({f['fn'] for f in refuted + other_refuted if f['fn'] and (cur_sk.get(f['fn']) != base_sk.get(f['fn']) or f.get('not_generated'))})
     for f in refuted + other_refuted:
         f['trusted_without_witness'] = f['fn'] not in restructured
     lost_hints = None
@@ -570,13 +617,13 @@ def decide_verus_leg(pid, leg, tier, seed, log):
         fs = res['functions'].get(o['fn'])
         if fs:
             fn_stats[o['fn']] = {'ms': fs['ms'], 'rlimit': fs['rlimit']}
-    return {'unit': u, 'res': res, 'mine': mine, 'pre': pre, 'refuted': refuted, 'fn_stats': fn_stats, 'lost_hints': lost_hints, 'other_refuted': other_refuted,
+    return {'unit': u, 'res': res, 'mine': mine, 'pre': pre, 'refuted': refuted, 'fn_stats': fn_stats, 'lost_hints': lost_hints, 'other_refuted': other_refuted, 'stubs': stubs,
             'assumptions': scan_assumptions(u.gen_lines, u.meta)}
 
 
-def run_canaries(leg, pid, log):
+def run_canaries(leg, pid, log, stubs=None):
     """Every contracted function of the property with `assert(false)` at entry: each must FAIL (otherwise its precondition is contradictory)."""
-    u = UnitRun(leg['unit'], leg['vcfile'], leg['defines'], leg['variant'], canary=True).build()
+    u = UnitRun(leg['unit'], leg['vcfile'], leg['defines'], leg['variant'], canary=True).build(stub_fns=stubs)
     res = u.verify(seed=0, multiple_errors=2, use_cache=(os.environ.get('VERIF_TIER', '') != 'thorough' and not NO_CACHE))
     if res.get('frontend_error'):
         raise Undecided('verus front end on canary unit %s: %s' % (u.label, res['frontend_error']))
@@ -716,7 +763,7 @@ def main():
                 legs.append(decide_derive_leg(pid, leg, seed, log))
             elif leg['engine'] == 'verus':
                 info = decide_verus_leg(pid, leg, a.tier, seed, log)
-                info['canary'] = run_canaries(leg, pid, log) if leg.get('canary', True) else {'skipped': 'variant of a unit whose canaries run under the base unit', 'vacuous': []}
+                info['canary'] = run_canaries(leg, pid, log, stubs=info.get('stubs')) if leg.get('canary', True) else {'skipped': 'variant of a unit whose canaries run under the base unit', 'vacuous': []}
                 if info['canary']['vacuous']:
                     raise Undecided('vacuity canary verified (contradictory precondition?) for: %s' % ', '.join(info['canary']['vacuous']))
                 legs.append(info)
